@@ -23,6 +23,7 @@ func init() {
 	ruleText["R05.3"] = "in the recursive closure of (*itype).methods, no unconditional store merging the result of a recursive call is reachable from the store recording the type's own methods (range over itype.method)"
 	ruleText["R05.4"] = "same analysis as C08/R08.1: no run-time closure writes (assignment, element/field store, also through a one-step local alias) to a variable captured from its generator; receivers and resolved method nodes are per-call values"
 	ruleText["R05.5"] = "getWrapper reaches (*itype).methods through direct calls (depth 2), as (*itype).implements does: wrapper selection and interface satisfaction are decided on the same method set"
+	ruleText["R05.7"] = "no run-time closure of the generator of type assertions calls methodSet.contains or methodSet.equals (names only): satisfaction of an interpreted interface is decided on the method signatures"
 	ruleText["R05.6"] = "the SSA form of the method-resolution functions (methods, lookupMethod*, getMethod, lookupBinMethod*, lookupField, implements, lookupFieldOrMethod, getWrapper, with their closures) contains no Store/MapUpdate whose target is not a local (Alloc, MakeMap, captured local), no store into a package variable and no sync.Map mutation"
 	ruleText["R05.2"] = "in every function that creates a frame with newFrame, each element store into the new frame's data vector (directly or through a local slice of it) has as right-hand side reflect.New(t).Elem(), a copier call, a MakeFunc-built function value, or the frozen exception of directly assigned result slots (call: rvalues)"
 }
@@ -35,6 +36,7 @@ func runC05(c *Config, r *Report) {
 	}
 	freshFrameSlots(ic, r, "R05.2")
 	pureLookups(ic, r, "R05.6")
+	c05R7(ic, r)
 	c05R3(ic, r)
 	c05R5(ic, r)
 	// R05.4: method resolution and receiver binding happen per call. The run-time closures keep
@@ -381,4 +383,36 @@ func c05R5(ic *IC, r *Report) {
 	}
 	r.Check(reaches(fi), "R05.5", "getWrapper/selection-on-method-set", ic.pos(fi.Decl.Pos()), "the composed wrapper is selected on the full method set, like implements",
 		"getWrapper no longer consults (*itype).methods (which (*itype).implements is based on) to decide whether the interpreted type has the methods of a composed wrapper: methods promoted from embedded fields, provided by embedded compiled types or declared on the pointer are not seen, so io.Copy never calls an interpreted WriteTo and the value silently gets the plain wrapper")
+}
+
+// c05R7: a type assertion x.(I) to an interface declared in the script succeeds only if the
+// dynamic type has I's methods *with their signatures*. methodSet.contains (and equals, built
+// on it) compares method names only - acceptable for what the compiler already type-checked,
+// not for a run-time decision between interfaces with overlapping method names. No run-time
+// closure of the generator of type assertions calls them; the closures that take two method
+// sets compare their elements (an index expression into a method set).
+func c05R7(ic *IC, r *Report) {
+	fi := ic.fn(r, "typeAssert")
+	if fi == nil {
+		return
+	}
+	info := ic.Info
+	n := 0
+	for k, fl := range (&c02ctx{ic: ic}).closuresOf(fi) {
+		sets := len(callsIn(info, fl.Body, true, "interp.itype.methods"))
+		namesOnly := callsIn(info, fl.Body, true, "interp.methodSet.contains", "interp.methodSet.equals")
+		if sets == 0 && len(namesOnly) == 0 {
+			continue
+		}
+		n++
+		var where []string
+		for _, c := range namesOnly {
+			where = append(where, ic.pos(c.Pos()))
+		}
+		r.Check(len(namesOnly) == 0, "R05.7", fmt.Sprintf("typeAssert/closure#%d/signatures-compared", k+1), ic.pos(fl.Pos()), "method sets are compared with their signatures",
+			"this closure of the generator of type assertions decides x.(I) with methodSet.contains/equals (at "+strings.Join(where, ", ")+"), which compare method names only: a type with Get() int is accepted for an interface requiring Get() string, the wrong branch is taken and a later call panics")
+	}
+	if n == 0 {
+		r.Errorf("R05.7: no closure of typeAssert compares method sets")
+	}
 }
